@@ -559,6 +559,47 @@ fn programs_shard(seed: u64, shard: usize, count: usize, max_nodes: usize, max_p
     }
 }
 
+/// `PrintChar<CHAR>` is public but only three ASCII instances are wired into `PushInstruction`;
+/// any other character has to be performed directly. After other output, and followed by other
+/// output, the buffer must read back as exactly the concatenation.
+fn print_char_instances(rep: &mut Report) {
+    use push::instruction::{printing::PrintChar, Instruction};
+    macro_rules! one {
+        ($c:literal) => {{
+            rep.eval();
+            rep.count("PrintChar<const>:performed");
+            rep.distinct(fnv_str(&format!("printchar{}", $c)));
+            let built = push::push_vm::push_state::PushState::builder().with_max_stack_size(4).with_no_program().with_instruction_step_limit(10).build();
+            let r = vh_core::catch(|| {
+                let st = push::instruction::PushInstruction::PrintString(push::instruction::printing::PrintString("<".to_string())).perform(built).map_err(|e| format!("{:?}", e.error()))?;
+                let st = PrintChar::<$c>::new().perform(st).map_err(|e| format!("{:?}", e.error()))?;
+                let st = PrintChar::<$c>.perform(st).map_err(|e| format!("{:?}", e.error()))?;
+                let mut st = push::instruction::PushInstruction::PrintString(push::instruction::printing::PrintString(">".to_string())).perform(st).map_err(|e| format!("{:?}", e.error()))?;
+                st.stdout_string().map_err(|e| format!("output is not valid UTF-8: {e}"))
+            });
+            let want = format!("<{}{}>", $c, $c);
+            match r {
+                Ok(Ok(s)) if s == want => {}
+                other => rep.violation("C01/PrintChar/output", || json!({"character": format!("{:?}", $c), "expected_output": want, "observed": format!("{other:?}")})),
+            }
+        }};
+    }
+    one!('a');
+    one!(' ');
+    one!('\n');
+    one!('\u{7f}');
+    one!('\u{80}');
+    one!('é');
+    one!('ß');
+    one!('\u{7ff}');
+    one!('\u{800}');
+    one!('€');
+    one!('\u{ffff}');
+    one!('\u{10000}');
+    one!('🦀');
+    one!('\u{10ffff}');
+}
+
 pub fn run(args: &Args) -> i32 {
     let shapes = all_shapes();
     let draws = args.tier.pick(24, 200);
@@ -567,6 +608,7 @@ pub fn run(args: &Args) -> i32 {
         matrix_for(&shapes[i], args.seed, draws, &mut rep);
         rep
     });
+    print_char_instances(&mut rep);
     let matrix_evals = rep.evaluations;
     let shards = 64;
     let per = args.tier.pick(4_000, 60_000);
